@@ -1,9 +1,11 @@
 ----------------------------- MODULE Gen_System -----------------------------
 EXTENDS System
-CONSTANTS NClasses, Homes, Nla, RunCode, ZeroK, WithU
+CONSTANTS NClasses, Homes, Nla, RunCode, ZeroK, WithU, DiffForms
 VARIABLE sys
 NoFault == [kind |-> NoneS, name |-> NoneS]
-Init == sys \in UNION {UNION {{[classes |-> s.classes, nla |-> k, nlaDep |-> NoneS, fault |-> f] : f \in (IF k = NoneS THEN Faults(s) ELSE {NoFault})} : k \in Nla} : s \in Systems(NClasses, Homes, ZeroK)}
+DiffSystems == UNION {{[classes |-> s.classes, nla |-> NoneS, nlaDep |-> NoneS, fault |-> [kind |-> "diffOfSum", name |-> s.classes[i].name]] :
+                          i \in {k \in DOMAIN s.classes : s.classes[k].role = "state"}} : s \in Systems(NClasses, Homes, ZeroK)}
+Init == IF DiffForms THEN sys \in DiffSystems ELSE sys \in UNION {UNION {{[classes |-> s.classes, nla |-> k, nlaDep |-> NoneS, fault |-> f] : f \in (IF k = NoneS THEN Faults(s) ELSE {NoFault})} : k \in Nla} : s \in Systems(NClasses, Homes, ZeroK)}
                \cup (IF WithU THEN {[classes |-> s.classes, nla |-> s.nla, nlaDep |-> s.nlaDep, fault |-> NoFault] : s \in SystemsU(NClasses, Homes, ZeroK)} ELSE {})
 NlaExpect == CASE sys.nla \in {"pair", "mixed"} -> <<"u", "w">> [] sys.nla \in {"one", "guess"} -> <<"u">> [] OTHER -> <<>>
 Next == UNCHANGED sys
